@@ -250,3 +250,79 @@ def rule_bw1(prog, rep, units, rid='BW1'):
                                       '%s writes %s byte(s) into %s whose capacity is %s: %s' % (canon(x)[:60], extent, base, capdesc, why))
     rep.notes['BW1_undecided'] = skipped
     rep.notes['BW1_not_analysed'] = 'writes without an explicit extent (strcpy, sprintf, stores through a moving cursor)'
+
+
+def rule_growth_room(prog, rep, units, rid='GR1'):
+    """Growable local arrays: `if (N <cmp> A) { A = ...; buf = realloc(buf, ... A ...); }  ...  buf[E] = ...`.
+    On the path that does NOT grow, the comparison's false outcome must already imply E < A for every element index E
+    written afterwards in the same iteration (E = N + k).  (Whether the growth branch makes enough room is not decided.)"""
+    rep.rule(rid, 'growable array protocol: the no-growth outcome of the capacity test implies index < capacity for every '
+                  'element written afterwards (an end marker needs one slot more than the elements)')
+    for rel in units:
+        for f in sorted(prog.funcs_in(rel), key=lambda x: x.line or 0):
+            if f.body is None:
+                continue
+            for x in walk(f.body):
+                if x.get('kind') != 'IfStmt':
+                    continue
+                ch = children(x)
+                c = strip_parens(ch[0])
+                if c.get('kind') != 'BinaryOperator' or c.get('opcode') not in ('>=', '>', '==', '<', '<='):
+                    continue
+                a, b = (strip(y) for y in children(c))
+                if a.get('kind') != 'DeclRefExpr' or b.get('kind') != 'DeclRefExpr':
+                    continue
+                na, nb = (a.get('referencedDecl') or {}).get('name'), (b.get('referencedDecl') or {}).get('name')
+                # the then-branch grows: it re-assigns one of the two (the capacity) and reallocs with it
+                assigned = set()
+                reallocs = []
+                for y in walk(ch[1]):
+                    if y.get('kind') in ('BinaryOperator', 'CompoundAssignOperator') and (y.get('opcode') or '').endswith('=') \
+                            and y.get('opcode') not in ('==', '!=', '<=', '>='):
+                        l = strip(children(y)[0])
+                        if l.get('kind') == 'DeclRefExpr':
+                            assigned.add((l.get('referencedDecl') or {}).get('name'))
+                    if y.get('kind') == 'CallExpr' and prog.callee_name(y) == 'realloc':
+                        reallocs.append(y)
+                if not reallocs:
+                    continue
+                cap = nb if nb in assigned else (na if na in assigned else None)
+                if cap is None or not any(cap in canon(r) for r in reallocs):
+                    continue
+                cnt = na if cap == nb else nb
+                op = c.get('opcode')
+                if cap == na:      # normalise to  cnt <op> cap
+                    op = {'>=': '<=', '>': '<', '<': '>', '<=': '>=', '==': '=='}[op]
+                # false outcome of `cnt op cap`: slack = largest s with  cnt + s <= cap - 1 ... i.e. cnt <= cap - 1 - s
+                # cnt >= cap false -> cnt <= cap-1 (room for index cnt); cnt > cap false -> cnt <= cap (no room for index cnt)
+                room = {'>=': 0, '>': -1, '==': None}.get(op)
+                if room is None:
+                    continue
+                buf = canon(children(reallocs[0])[1])
+                # element indexes written after the if (same compound statement): buf[cnt + k]
+                from .dataflow import poly_of
+                rest_ids = set()
+                # statements following x in its parent compound
+                for comp in walk(f.body):
+                    if comp.get('kind') == 'CompoundStmt' and any(z is x for z in children(comp)):
+                        sib = children(comp)
+                        for z in sib[sib.index(x) + 1:]:
+                            for w in walk(z):
+                                rest_ids.add(id(w))
+                worst = None
+                for w in walk(f.body):
+                    if id(w) in rest_ids and w.get('kind') == 'ArraySubscriptExpr' and canon(children(w)[0]) == buf:
+                        p = poly_of(children(w)[1])
+                        k = (p - __import__('qv.dataflow', fromlist=['Poly']).Poly.atom(cnt)).as_const()
+                        if k is not None and (worst is None or k > worst[0]):
+                            worst = (k, w)
+                if worst is None:
+                    continue
+                rep.instance(rid)
+                ok = worst[0] <= room
+                rep.oblige(rid, ok, {'function': f.name, 'line': x.get('_line'), 'test': canon(c), 'highest_index_written': canon(children(worst[1])[1])})
+                if not ok:
+                    rep.violation(rid, f, x.get('_line'), 'room:%s' % canon(c)[:30],
+                                  'when %s is false nothing grows, yet %s[%s] is written afterwards: that needs %s + %d < %s, which the '
+                                  'false outcome does not give (the element after the last one - an end marker - has no slot)'
+                                  % (canon(c), buf, canon(children(worst[1])[1]), cnt, worst[0], cap))
